@@ -3,5 +3,6 @@ CONSTANTS
   Heights = {0, 1, 2, 3, 4, 5, 6, 7, 8, 9, 10, 11}
   Windows = {1, 2, 3, 4, 5}
   FixedCode = TRUE
-INVARIANTS TypeOK ServesExactlyWindow RestartStable ServedIsOnDisk
+  FlushEvery = 1
+INVARIANTS TypeOK ServesExactlyWindow RestartStable CrashDurable ServedIsOnDisk
 CHECK_DEADLOCK FALSE
